@@ -57,7 +57,7 @@ Idx(log) == 1..Len(log)
 SumTo(log, i, F(_)) == LET s[j \in 0..i] == IF j = 0 THEN 0 ELSE F(log[j]) + s[j - 1] IN s[i]
 IsReadRet(e) == e.ev = "ret" /\ e.fn \in Reads /\ e.res = "ok"
 DeliveredF(e) == IF IsReadRet(e) THEN Len(e.data) ELSE 0
-WrittenF(e) == IF e.ev = "env" /\ e.fn = "write" THEN e.n ELSE 0
+WrittenF(e) == IF e.ev = "env" /\ e.fn = "write" /\ e.res # "refused" THEN e.n ELSE 0
 SrvGotF(e) == IF e.ev = "srvgot" /\ e.res = "data" THEN Len(e.data) ELSE 0
 OfferedF(e) == IF e.ev = "op" /\ e.fn \in {"send", "sendall"} THEN e.n ELSE 0
 Delivered(log, i) == SumTo(log, i, DeliveredF)       \* plaintext bytes handed to the caller by log[1..i]
@@ -144,18 +144,21 @@ Off_TimeoutPropagates(c, log, i) ==
     \/ /\ i > 1 /\ log[i - 1].ev \in {"srecv", "ssend"} /\ log[i - 1].res = "timeout"
        /\ ~(e.ev = "ret" /\ e.exc \in {"TimeoutError", "timeout"})
 
-ClauseNames == <<"NoPlaintextOnWire", "PlaintextInOrderNoLossNoDup", "NoBusyLoop", "EOFHandling", "CloseOrder",
-                 "TimeoutPropagates">>
-Offends(c, log, i) == <<Off_NoPlaintextOnWire(c, log, i), Off_PlaintextInOrderNoLossNoDup(c, log, i),
-                        Off_NoBusyLoop(c, log, i), Off_EOFHandling(c, log, i), Off_CloseOrder(c, log, i),
-                        Off_TimeoutPropagates(c, log, i)>>
+AnyOff(c, log, i) == \/ Off_NoPlaintextOnWire(c, log, i) \/ Off_PlaintextInOrderNoLossNoDup(c, log, i)
+                     \/ Off_NoBusyLoop(c, log, i) \/ Off_EOFHandling(c, log, i) \/ Off_CloseOrder(c, log, i)
+                     \/ Off_TimeoutPropagates(c, log, i)
+FirstClause(c, log, i) ==
+    IF Off_NoPlaintextOnWire(c, log, i) THEN "NoPlaintextOnWire"
+    ELSE IF Off_PlaintextInOrderNoLossNoDup(c, log, i) THEN "PlaintextInOrderNoLossNoDup"
+    ELSE IF Off_NoBusyLoop(c, log, i) THEN "NoBusyLoop"
+    ELSE IF Off_EOFHandling(c, log, i) THEN "EOFHandling"
+    ELSE IF Off_CloseOrder(c, log, i) THEN "CloseOrder"
+    ELSE "TimeoutPropagates"
 \* Total verdict: earliest offending position and its clause (ties: the order above), or <<0, "ok">>
 Verdict(c, log) ==
-    LET bad == {i \in Idx(log) : \E n \in 1..6 : Offends(c, log, i)[n]} IN
+    LET bad == {i \in Idx(log) : AnyOff(c, log, i)} IN
     IF bad = {} THEN <<0, "ok">>
-    ELSE LET p == CHOOSE x \in bad : \A y \in bad : x <= y
-             n == CHOOSE x \in 1..6 : Offends(c, log, p)[x] /\ \A y \in 1..(x - 1) : ~Offends(c, log, p)[y]
-         IN <<p, ClauseNames[n]>>
+    ELSE LET p == CHOOSE x \in bad : \A y \in bad : x <= y IN <<p, FirstClause(c, log, p)>>
 
 -----------------------------------------------------------------------------
 (* MODEL                                                                                       *)
